@@ -252,6 +252,14 @@ def comp(e, env, ctx, k):
         op = e[1]
         if op in ("&", "*"):
             return comp(e[2], env, ctx, k)
+        if op == "!":
+            def kn(v, env2):
+                if v.ty != BOOL:
+                    ctx.fail("`!` on a non-boolean")
+                if isinstance(v.aux, dict) and "neg_of" in v.aux:
+                    return k(V(v.aux["neg_of"], BOOL), env2)
+                return k(V(f"(!{par(v.t)})", BOOL, {"neg_of": v.t}), env2)
+            return comp(e[2], env, ctx, kn)
         ctx.fail(f"unary `{op}`")
     if tag == "cast":
         target = as_type(e[2][1], ctx)
@@ -275,8 +283,22 @@ def comp(e, env, ctx, k):
                         ctx.fail(f"comparison `{op}` of {a.ty} and {b.ty}")
                     if a.ty == ENUM and op not in ("==", "!="):
                         ctx.fail("ordering comparison of enum values")
-                    lop = {"==": "=", "!=": "≠", "<": "<", ">": ">", "<=": "≤", ">=": "≥"}[op]
-                    return k(V(f"decide ({par(a.t)} {lop} {par(b.t)})", BOOL), env3)
+                    # one normal form for the six comparisons: operands of `=` in textual order, only `<` / `≤`,
+                    # `!=` as a negated `=` (an `if` on a negated condition swaps its branches)
+                    x, y = par(a.t), par(b.t)
+                    if op in ("==", "!="):
+                        x, y = sorted((x, y))
+                        pos = f"decide ({x} = {y})"
+                        if op == "==":
+                            return k(V(pos, BOOL), env3)
+                        return k(V(f"(!{pos})", BOOL, {"neg_of": pos}), env3)
+                    if op in (">", "<="):
+                        x, y = y, x
+                    pos = f"decide ({x} < {y})"
+                    if op in ("<", ">"):
+                        return k(V(pos, BOOL), env3)
+                    # `a <= b` is `!(b < a)`, `a >= b` is `!(a < b)`
+                    return k(V(f"(!{pos})", BOOL, {"neg_of": pos}), env3)
                 if op in ("&&", "||"):
                     if a.ty != BOOL or b.ty != BOOL:
                         ctx.fail("boolean operator on non-booleans")
@@ -315,6 +337,8 @@ def comp(e, env, ctx, k):
                 def kcond(c, env3):
                     a = comp(("index", ("__v", tbl), block_value(idx[2], ctx)), env3, ctx, k)
                     b = comp(("index", ("__v", tbl), block_value(idx[3], ctx)), env3, ctx, k)
+                    if isinstance(c.aux, dict) and "neg_of" in c.aux:
+                        return f"if {c.aux['neg_of']} then\n{b}\nelse\n{a}"
                     return f"if {c.t} then\n{a}\nelse\n{b}"
                 return comp(idx[1], env2, ctx, kcond)
             if idx[0] == "range":
@@ -346,6 +370,8 @@ def comp(e, env, ctx, k):
             else:
                 a = comp(e[2], env2, ctx, k)
                 b = comp(e[3], env2, ctx, k)
+            if isinstance(c.aux, dict) and "neg_of" in c.aux:
+                return f"if {c.aux['neg_of']} then\n{b}\nelse\n{a}"
             return f"if {c.t} then\n{a}\nelse\n{b}"
         return comp(e[1], env, ctx, kcond)
     if tag == "return":
@@ -547,10 +573,13 @@ def comp_struct(e, env, ctx, k):
             if v.ty[1] != ENUM:
                 ctx.fail("iterator struct over non-variants")
             return k(V(f"(IterState.cursor {par(v.t)})", ITERSTATE), env2)
-        if fields == ["fwd", "bwd", "len"]:
-            if vs[0].ty != OPT(ENUM) or vs[1].ty != OPT(ENUM) or not (is_int(vs[2].ty) and vs[2].ty[1] in ("usize", None)):
+        if sorted(fields) == ["bwd", "fwd", "len"]:
+            # the initialisers were evaluated in the order written; the struct does not care
+            byname = dict(zip(fields, vs))
+            f_, b_, l_ = byname["fwd"], byname["bwd"], byname["len"]
+            if f_.ty != OPT(ENUM) or b_.ty != OPT(ENUM) or not (is_int(l_.ty) and l_.ty[1] in ("usize", None)):
                 ctx.fail("next_and_back struct with fields of unexpected types")
-            return k(V(f"(IterState.nb {par(vs[0].t)} {par(vs[1].t)} (Int.toNat {par(vs[2].t)}))", ITERSTATE), env2)
+            return k(V(f"(IterState.nb {par(f_.t)} {par(b_.t)} (Int.toNat {par(l_.t)}))", ITERSTATE), env2)
         ctx.fail(f"iterator struct with fields {fields}")
     return comp_args([x for _, x in e[2]], env, ctx, kf)
 
@@ -876,6 +905,19 @@ class Walker:
                     if m.group(1) != "( _ , ( v , name ) )":
                         err(rel, n.line, f"loop over derive.values with pattern `{m.group(1)}`")
                     pending_loop = n.line
+                m = re.match(r"^let (\w+) = derive \. values \. iter \( \) \. map$", s)
+                if (m and i + 2 < len(nodes) and isinstance(nodes[i + 1], Stmt) and isinstance(nodes[i + 2], Quote)
+                        and text_of(nodes[i + 1].toks) == "| ( _ , ( v , name ) ) |"):
+                    q = nodes[i + 2]
+                    toks = q.toks
+                    j = next((j for j, t in enumerate(toks) if t.text == "=>"), None)
+                    if j is None or toks[-1].text != ",":
+                        err(rel, q.line, "mapped template is not a match arm")
+                    body = rustexpr.P(toks[j + 1:-1], "src/" + rel).parse_expr()
+                    interp[m.group(1)] = ("arms", text_of(toks[:j]), body,
+                                          {"v": ("variant", "x.1"), "name": ("name", "x.2.2")})
+                    i += 3
+                    continue
                 m = re.match(r"^(\w+) \. push$", s)
                 if m and pending_loop is not None and i + 1 < len(nodes) and isinstance(nodes[i + 1], Quote):
                     q = nodes[i + 1]
